@@ -76,7 +76,7 @@ func (g *Gen) smallLen() uint64 {
 	case 2:
 		return uint64(g.R.Intn(70))
 	case 3:
-		return 1
+		return Pick(g.R, []uint64{1, 3, 4, 5}) // (4: exactly a function selector)
 	case 4:
 		return 64
 	default:
@@ -525,11 +525,15 @@ func InitTemplate(r *RNG, kind int) []byte {
 		a.Op(INVALID)
 	case 9: // returns exactly max size (24576)
 		a.PushU(24576).PushU(0).Op(RETURN)
+	case 10: // oversize AND starting with 0xEF: two rules apply, the reference decides which one is reported
+		a.Push(new(uint256.Int).Lsh(uint256.NewInt(0xEF), 248)).PushU(0).Op(MSTORE).PushU(uint64(24577 + r.Intn(3))).PushU(0).Op(RETURN)
+	case 11: // exactly max size starting with 0xEF
+		a.Push(new(uint256.Int).Lsh(uint256.NewInt(0xEF), 248)).PushU(0).Op(MSTORE).PushU(24576).PushU(0).Op(RETURN)
 	}
 	return a.Bytes()
 }
 
-const NumInitTemplates = 10
+const NumInitTemplates = 12
 
 // JumpyInit returns init code whose only JUMPDEST sits behind a data region of n bytes (some of them 0x5b):
 // the position of the valid destination differs with n.
